@@ -10,10 +10,15 @@ fn spec_from(s: &mut Src, allow_expect: bool, big_bodies: bool) -> ReqSpec {
     let body = if method == 0 && !s.chance(40) {
         0
     } else {
-        match s.weighted(&[6, 6, 3, if big_bodies { 2 } else { 0 }]) {
+        match s.weighted(&[6, 6, 3, if big_bodies { 2 } else { 0 }, 2]) {
             0 => 0,
             1 => s.range(1, 60),
             2 => s.range(900, 1200),
+            4 => {
+                // whole multiples of the server's receive window, and their neighbours
+                let k = s.range(1, 4) * 1024;
+                [k, k, k - 1, k + 1][s.below(4)]
+            }
             _ => s.range(3000, 40000),
         }
     };
@@ -115,6 +120,10 @@ fn c08_hist(input: &Input, obs: &mut Obs) -> Result<(), Fail> {
     let nclients = 1 + s.below(4);
     let mut w = World::new(nclients, false, obs.want_render).map_err(|e| Fail::new("harness-world", e))?;
     let skeleton = s.weighted(&[10, 3, 3, 3]);
+    if s.chance(70) {
+        w.unicode_headers = true;
+        obs.label("multi-byte_characters_in_header_values");
+    }
     let small_buf = s.chance(90);
     let big = s.chance(100);
     let nops = s.range(4, 50);
@@ -197,7 +206,15 @@ fn c08_hist(input: &Input, obs: &mut Obs) -> Result<(), Fail> {
                         let c = conn[s.below(conn.len())];
                         let spec = spec_from(&mut s, true, big);
                         let ncuts = s.weighted(&[6, 3, 2, 1]);
-                        let cuts: Vec<usize> = (0..ncuts).map(|_| s.u16() as usize).collect();
+                        let mut cuts: Vec<usize> = (0..ncuts).map(|_| s.u16() as usize).collect();
+                        let mut head_first = false;
+                        if spec.body > 0 && s.chance(70) {
+                            // the head on its own, read by the server before the body is sent
+                            let probe = w.compose(c, &spec);
+                            w.clients[c].composed.pop();
+                            cuts = vec![probe.len() - spec.body];
+                            head_first = w.clients[c].staged.is_empty() && w.clients[c].unsent.is_empty();
+                        }
                         if spec.expect {
                             had_expect = true;
                         }
@@ -205,6 +222,14 @@ fn c08_hist(input: &Input, obs: &mut Obs) -> Result<(), Fail> {
                             pipelined = true;
                         }
                         w.send_request(c, &spec, &cuts);
+                        if head_first {
+                            w.settle(1000, true);
+                            w.send_next(c);
+                            obs.label("body_sent_after_the_head_was_read");
+                            if spec.body % 1024 == 0 {
+                                obs.label("separately_sent_body_of_whole_windows");
+                            }
+                        }
                     }
                 }
                 2 => {
@@ -303,8 +328,9 @@ fn c08_hist(input: &Input, obs: &mut Obs) -> Result<(), Fail> {
                         if s.chance(128) {
                             if quiet {
                                 // the server has read everything so far: this request fills k reads exactly
-                                let total = 1024 * s.range(1, 2) - [0usize, 0, 1, 23][s.below(4)];
-                                let body = if total > 1100 { s.range(200, 900) } else { 0 };
+                                let total = 1024 * s.range(1, 4) - [0usize, 0, 1, 23][s.below(4)];
+                                // (the pad header takes what the body leaves, at most 1000 bytes)
+                                let body = if total > 1100 { total - s.range(120, 900) } else { 0 };
                                 let spec = ReqSpec { method: if body > 0 { 1 } else { 0 }, version: 1, body, expect: body > 0 && s.chance(80), extra_headers: 0, body_kind: 0 };
                                 if w.send_request_sized(c, &spec, total) {
                                     obs.label("request_sized_to_fill_reads_exactly");
@@ -2443,18 +2469,87 @@ fn c07_hist(input: &Input, obs: &mut Obs) -> Result<(), Fail> {
     }
 }
 
+/// "with any delay": the application answers after a real-time pause during which nothing happens
+/// on the connection; params = [pause in ms, variant (0: the owner stays connected and silent,
+/// 1: the owner has left with its request in flight)]
+fn c07_delay(input: &Input, obs: &mut Obs) -> Result<(), Fail> {
+    let p = input.params();
+    let (ms, variant) = (p[0], p[1]);
+    let mut w = World::new(4, false, obs.want_render).map_err(|e| Fail::new("harness-world", e))?;
+    let r = (|| -> Result<(), (String, String)> {
+        let spec = ReqSpec { method: 0, version: 1, body: 0, expect: false, extra_headers: 1, body_kind: 0 };
+        w.connect(0);
+        w.settle(1000, true);
+        w.send_request(0, &spec, &[]);
+        w.send_request(0, &spec, &[]);
+        w.settle(1000, true);
+        if w.outstanding.len() != 2 {
+            return Err(("harness-world".into(), format!("{} requests yielded, expected 2", w.outstanding.len())));
+        }
+        // one of the two is answered at once, the other one late
+        w.respond(0, 200, 40);
+        w.settle(1000, true);
+        w.read_client(0, usize::MAX);
+        if variant == 1 {
+            w.close_client(0);
+            w.settle(1000, true);
+        }
+        std::thread::sleep(std::time::Duration::from_millis(ms));
+        // something else wakes the server up; then a newcomer (whose socket gets the lowest free
+        // descriptor number on the server's side)
+        w.connect(1);
+        w.settle(1000, true);
+        w.connect(2);
+        w.settle(1000, true);
+        w.send_request(2, &spec, &[]);
+        w.settle(1000, true);
+        // the late answer, then the newcomer's
+        while !w.outstanding.is_empty() {
+            w.respond(0, 200, 60);
+            w.settle(1000, true);
+        }
+        for c in 0..3 {
+            w.read_client(c, usize::MAX);
+        }
+        c07_audit_all(&w)
+    })();
+    obs.nontrivial = true;
+    if obs.want_render {
+        obs.render = format!("pause {} ms, variant {}\n{}", ms, variant, w.render());
+    }
+    match r {
+        Ok(()) => Ok(()),
+        Err((sig, msg)) if sig.starts_with("harness") => Err(Fail::new(&sig, msg)),
+        Err((sig, msg)) => Err(wfail("C07", &sig, format!("after a pause of {} ms: {}", ms, msg), &w)),
+    }
+}
+
+fn c07_delay_enum(tier: Tier, shard: u64, nshards: u64, f: &mut dyn FnMut(&[u64]) -> bool) {
+    let pauses: &[u64] = if tier == Tier::Quick { &[1_200, 5_300] } else { &[1_200, 5_300, 10_500, 20_500] };
+    let mut c = 0u64;
+    for ms in pauses {
+        for v in 0..2u64 {
+            c += 1;
+            if c % nshards == shard && !f(&[*ms, v]) {
+                return;
+            }
+        }
+    }
+}
+
 fn c07_plan(tier: Tier) -> Vec<Job> {
     let q = tier == Tier::Quick;
     vec![
         Job { sub: "macro", kind: JobKind::Enum { f: c07_macro_enum, bound: if q { "all applicable macro-operation sequences of depth 6 over {connect, send request, close, half-close} x 2 client roles and {respond oldest, respond newest}, each followed by a settle (sequences containing a request)" } else { "same, depth 7" } }, smallbuf: false },
         Job { sub: "hist", kind: JobKind::Pbt { cases: if q { 40_000 } else { 800_000 }, max_len: 600 }, smallbuf: false },
+        Job { sub: "delay", kind: JobKind::Enum { f: c07_delay_enum, bound: "late answer after a real-time pause of 1.2 s and 5.3 s (thorough: also 10.5 s and 20.5 s) x {owner connected and silent, owner gone}; a newcomer connects after the pause" }, smallbuf: false },
     ]
 }
 
 pub fn c07() -> PropDef {
     PropDef {
         id: "C07",
-        subs: vec![("macro", c07_macro), ("hist", c07_hist)],
+        subs: vec![("macro", c07_macro), ("hist", c07_hist), ("delay", c07_delay)],
         plan: c07_plan,
         rule: "case = history over up to 4 simultaneous clients (10 slots): connect, send tagged request (whole or in pieces), garbage, close, shutdown(WR/RD/RDWR), read, poll, respond to any outstanding request in any order with 0..320 KB; skeleton 'close with k requests in flight, new client connects (the kernel hands the server the descriptor number it just released), late answers before/after the new client's first request'; plus bounded-exhaustive macro-operation sequences; every request and response carries a tag naming its client; oracle = everything each client ever received parses (independent response reader) into responses that are its own application responses (byte-exact, at most once, in supply order) or server-generated replies justified by its own input, no foreign tag anywhere, respond() accepted; non-trivial = a client went away with >=1 request in flight, a later connect, and a later respond to the orphaned request; skeleton 'large batch': 2..4 clients pipeline 5..30 requests each, all answered through 1..3 enqueue_responses calls in yield order, round-robin or a drawn permutation (supply order is what each client must see)",
         assumptions: vec!["client sockets are created before the history and closed by dup2 so that descriptor numbers released by the server are reused by its next accept"],
@@ -2485,6 +2580,9 @@ enum KOp {
     BurstAll(usize),
     /// one client sends a long malformed header line made of multi-byte characters
     LongGarbage(usize, usize, usize),
+    /// one client pipelines more than a thousand small requests; the server is polled until it
+    /// has yielded about `target` of them (the rest is still unread), nothing is answered
+    Flood(usize, usize, usize),
 }
 
 fn k_apply(w: &mut World, op: &KOp, next_slot: &mut usize) {
@@ -2562,6 +2660,27 @@ fn k_apply(w: &mut World, op: &KOp, next_slot: &mut usize) {
                 }
             }
         }
+        KOp::Flood(who, n, target) => {
+            if !conn.is_empty() {
+                let c = conn[*who % conn.len()];
+                if !w.clients[c].dirty && w.clients[c].staged.is_empty() {
+                    let spec = ReqSpec { method: 0, version: 1, body: 0, expect: false, extra_headers: 0, body_kind: 0 };
+                    let before = w.clients[c].yielded.len();
+                    for _ in 0..*n {
+                        w.send_request(c, &spec, &[]);
+                    }
+                    let mut guard = 0;
+                    // (tiny sends are charged a whole buffer each: the socket takes a few hundred at a
+                    // time, the rest goes out as the server reads)
+                    while w.clients[c].yielded.len() - before < *target && guard < 400 {
+                        guard += 1;
+                        w.send_next(c);
+                        w.poll();
+                    }
+                    w.send_next(c);
+                }
+            }
+        }
         KOp::LongGarbage(who, pre, n) => {
             if !conn.is_empty() {
                 let c = conn[*who % conn.len()];
@@ -2594,7 +2713,8 @@ fn k_gen(s: &mut Src) -> (Vec<KOp>, bool) {
         }
     }
     for _ in 0..n {
-        let op = match s.weighted(&[5, 10, 3, 3, 2, 8, 6, 3, 2, 1, 2, 2, 1]) {
+        let op = match s.weighted(&[5, 10, 3, 3, 2, 8, 6, 3, 2, 1, 2, 2, 1, 1]) {
+            13 => KOp::Flood(s.u8() as usize, s.range(1030, 1500), [990usize, 1010, 1024, 1025, 1040, 1100][s.below(6)]),
             12 => KOp::LongGarbage(s.u8() as usize, s.below(4), s.range(100, 400)),
             11 => KOp::BurstAll(s.range(20, 45)),
             10 => KOp::Surplus(s.u8() as usize),
@@ -2723,6 +2843,9 @@ fn c18_kill(input: &Input, obs: &mut Obs) -> Result<(), Fail> {
         if unanswered {
             obs.label("kill_with_unanswered_requests");
         }
+        if w.outstanding.len() >= 1000 {
+            obs.label("kill_with_1000+_unanswered_requests");
+        }
         if at_cap {
             obs.label("kill_at_capacity");
         }
@@ -2797,17 +2920,78 @@ fn c18_kill(input: &Input, obs: &mut Obs) -> Result<(), Fail> {
     Ok(())
 }
 
+/// one client has more than a thousand requests unanswered and more of them unread in its socket
+/// when the kill switch is signalled (a state of C08/C10 floods): every following call reports
+/// the shutdown
+fn c18_flood(input: &Input, obs: &mut Obs) -> Result<(), Fail> {
+    let mut s = Src::new(input.bytes());
+    world_variant(&mut s);
+    let mut w = World::new(16, true, obs.want_render).map_err(|e| Fail::new("harness-world", e))?;
+    w.keep_answered = true;
+    let mut next_slot = 0;
+    let nclients = s.range(1, 3);
+    for _ in 0..nclients {
+        k_apply(&mut w, &KOp::Connect, &mut next_slot);
+    }
+    w.settle(400, true);
+    let n = s.range(1100, 1500);
+    let target = [700usize, 900, 960, 990, 1000, 1010, 1020, 1023][s.below(8)];
+    let who = s.u8() as usize;
+    // a few requests of the other clients are outstanding as well
+    if s.chance(128) {
+        k_apply(&mut w, &KOp::SendAll(true), &mut next_slot);
+        k_apply(&mut w, &KOp::Poll, &mut next_slot);
+    }
+    k_apply(&mut w, &KOp::Flood(who, n, target), &mut next_slot);
+    if w.poll_results.iter().any(|r| matches!(r, PollRes::Err(_))) {
+        obs.label("pre_kill_error_offtopic");
+        return Ok(());
+    }
+    let unread = w.outstanding.len() < n;
+    w.kill();
+    for i in 0..6 {
+        if !w.epoll_ready() {
+            return Err(wfail("C18", "blocks", format!("kill switch signalled with {} requests unanswered; before requests() call #{} after the signal the epoll descriptor is not readable: the call would block", w.outstanding.len(), i + 1), &w));
+        }
+        let pr = w.poll();
+        if std::env::var("MHV_DEBUG").is_ok() {
+            eprintln!("post-kill poll {} -> {:?}; outstanding {}", i, pr, w.outstanding.len());
+        }
+        match pr {
+            PollRes::Err(ref x) if x == "ShutdownEvent" => {}
+            other => {
+                return Err(wfail("C18", &format!("not-shutdown:{:?}", match &other { PollRes::Err(x) => x.clone(), PollRes::Ok(_) => "Ok".into(), _ => "NotReady".into() }), format!("kill switch signalled with {} requests of one client unanswered and more unread; requests() call #{} after the signal returned {:?} instead of ShutdownEvent", w.outstanding.len(), i + 1, other), &w));
+            }
+        }
+    }
+    if w.outstanding.len() >= 1000 {
+        obs.label("kill_with_1000+_unanswered_requests");
+    }
+    if unread {
+        obs.label("kill_with_unread_pipelined_requests");
+    }
+    obs.nontrivial = unread;
+    obs.case_hash = Some(fnv64(input.bytes()));
+    if obs.want_render {
+        obs.render = format!("{} clients; client {} pipelines {} requests, polled until {} were yielded; kill; 6 polls", nclients, who % nclients, n, target);
+    }
+    Ok(())
+}
+
 fn c18_plan(tier: Tier) -> Vec<Job> {
     let q = tier == Tier::Quick;
-    vec![Job { sub: "kill", kind: JobKind::Pbt { cases: if q { 2_500 } else { 50_000 }, max_len: 500 }, smallbuf: false }]
+    vec![
+        Job { sub: "kill", kind: JobKind::Pbt { cases: if q { 2_500 } else { 50_000 }, max_len: 500 }, smallbuf: false },
+        Job { sub: "flood", kind: JobKind::Pbt { cases: if q { 160 } else { 3_200 }, max_len: 24 }, smallbuf: false },
+    ]
 }
 
 pub fn c18() -> PropDef {
     PropDef {
         id: "C18",
-        subs: vec![("kill", c18_kill)],
+        subs: vec![("kill", c18_kill), ("flood", c18_flood)],
         plan: c18_plan,
-        rule: "case = server history of <=52 operations (connect up to and beyond capacity, whole/split/partial requests, reads, closes, polls, responses up to 320 KB, settles), replayed once per position with the kill switch signalled at that position and followed by 5 requests() calls interleaved with further client activity, plus the whole history once without a kill switch and once with a registered, never signalled one; oracle = after the signal every call finds the epoll descriptor readable (poll(2), so it cannot block) and returns ShutdownEvent; before it, per-client received bytes, yielded requests and all return values are identical with and without the registered switch; non-trivial = at some kill point the server had a partial request buffered, unsent output, unanswered requests or >=10 connections; evaluations count (history, position) pairs; variants: kill switch registered before/after start_server, already signalled when registered, being descriptor number 0; a surplus response (ServerRequest::process called again) for an idle connection",
+        rule: "case = server history of <=52 operations (connect up to and beyond capacity, whole/split/partial requests, reads, closes, polls, responses up to 320 KB, settles), replayed once per position with the kill switch signalled at that position and followed by 5 requests() calls interleaved with further client activity, plus the whole history once without a kill switch and once with a registered, never signalled one; oracle = after the signal every call finds the epoll descriptor readable (poll(2), so it cannot block) and returns ShutdownEvent; before it, per-client received bytes, yielded requests and all return values are identical with and without the registered switch; non-trivial = at some kill point the server had a partial request buffered, unsent output, unanswered requests or >=10 connections; evaluations count (history, position) pairs; variants: kill switch registered before/after start_server, already signalled when registered, being descriptor number 0; a surplus response (ServerRequest::process called again) for an idle connection; sub 'flood': one client pipelines 1100..1500 requests, the server is polled until 700..1023 of them were yielded (none answered, the rest unread), kill, 6 polls",
         assumptions: vec!["histories in which requests() already failed before the signal are skipped at that position (other properties judge them)"],
         single_threaded_world: true,
     }
